@@ -1,9 +1,9 @@
 (* Pinned statements for C15: compiled on every check run. A statement weakened in Props/ fails here. *)
 From Coq Require Import List String Permutation.
-From TS Require Import Model.Str Model.Outcome Model.Unicode Model.Syntax Model.Attrs Model.Types Model.Parse.
+From TS Require Import Model.Str Model.Outcome Model.Unicode Model.Syntax Model.Attrs Model.Types Model.Parse Model.Rename.
 From TS Require Import Model.Lang.TypeScript Model.Lang.Kotlin Model.Lang.Swift Model.Lang.Scala Model.Lang.Go Model.Lang.Python.
 From TS Require Import Spec.Lexers Spec.C15Spec Spec.C15Render.
-From TS Require Proofs.C15 Proofs.C15_Render Proofs.C15_Kotlin Proofs.C15_Go Proofs.C15_Swift Proofs.C15_Python.
+From TS Require Proofs.C15 Proofs.C15_Render Proofs.C15_Kotlin Proofs.C15_Go Proofs.C15_Swift Proofs.C15_Python Proofs.C15_TypeScript.
 Import ListNotations.
 From TS Require Props.C15.
 
@@ -163,3 +163,14 @@ Goal forall it,
   Permutation (map snd (c15_py_item_sites it)) (c15_item_generated it ++ c15_item_docs it).
 Proof. exact Props.C15.C15_py_sites_perm. Qed.
 Print Assumptions Props.C15.C15_py_sites_perm.
+Goal forall (uc : unicode) (cfg : ts_config),
+  c15_mappings_plain C15ts (ts_type_mappings cfg) = true ->
+  forall it st text st',
+  c15_item_plain C15ts TypeScript (fun n => str_to_uppercase uc (to_snake_case uc n)) it = true ->
+  ts_write_item uc cfg it st = Ok (text, st') ->
+  exists parts,
+    text = text_of (c15_file_pieces C15ts parts) /\
+    docs_of (c15_file_pieces C15ts parts) = c15_item_docs it /\
+    c15_contained C15ts LCode (mark (c15_file_pieces C15ts parts)) = forallb safe_ts (c15_item_docs it).
+Proof. exact Props.C15.C15_ts_item. Qed.
+Print Assumptions Props.C15.C15_ts_item.
